@@ -117,6 +117,50 @@ def encode_record(rid, notes, cols):
     return rec
 
 
+def big_record(rid, notes, cols):
+    """a stream whose measures have hundreds of thousands of rows (beats with very large denominators, or several small
+    coprime ones): the text is megabytes long, so the record carries what the harness MEASURES on it - rows per measure,
+    the notes read back, whether a second pass reproduces it - and TLC judges those against the specification"""
+    from simfile.notes import NoteData
+    rec = {"t": "encodebig", "id": rid, "notes": notes, "cols": cols, "st": "ok", "text": [], "back": [], "columns": 0,
+           "shape": [], "stable": False, "wide": False}
+    try:
+        nd = NoteData.from_notes((nc.build_note(d) for d in notes), cols)
+        text = str(nd)
+        back = list(nd)
+        rec["back"] = [nc.proj_note(x) for x in back]
+        rec["columns"] = nd.columns
+        rec["shape"] = [[sum(1 for row in m.splitlines() if row.strip()) for m in pl.split(",")] for pl in text.split("&")]
+        rec["wide"] = all(len(row.strip()) == cols for row in text.replace("&", "\n").replace(",", "\n").splitlines()
+                          if row.strip() and "[" not in row)
+        rec["stable"] = (str(NoteData.from_notes(back, cols)) == text)
+    except Exception as e:  # noqa
+        rec["st"] = type(e).__name__
+    return rec
+
+
+def big_cases(rng, n):
+    out = []
+    for i in range(n):
+        cols = rng.choice([1, 2])
+        m = rng.choice([0, 0, 1])
+        if i % 2 == 0:
+            d = rng.choice([65537, 70001, 99991, 131101])
+            k = rng.randrange(1, 4 * d)
+            from math import gcd
+            while gcd(k, d) != 1:
+                k += 1
+            notes = [{"p": 0, "n": 4 * m * d + k, "d": d, "c": rng.randrange(cols), "t": ord("1"), "k": -1}]
+        else:
+            dens = rng.choice([(41, 43, 47), (37, 41, 53), (16, 81, 125), (64, 27, 49), (101, 103, 7)])
+            notes = []
+            for j, d in enumerate(sorted(dens, reverse=True)):
+                notes.append({"p": 0, "n": 4 * m * d + 1 + j * d, "d": d, "c": rng.randrange(cols), "t": ord("1"), "k": -1})
+            notes.sort(key=lambda x: (x["n"] / x["d"], x["c"]))
+        out.append((notes, cols))
+    return out
+
+
 def s2c_job(rec):
     r = encode_record(0, rec["notes"], rec["cols"])
     same = (r["st"] == "ok" and r["text"] == rec["text"] and r["back"] == rec["notes"]
@@ -166,6 +210,10 @@ def c2s(ctx, nstreams, ntexts, ncorpus):
     recs, meta = [], {}
     for rid, (notes, cols) in enumerate(cases):
         recs.append(encode_record(rid, notes, cols))
+        meta[rid] = {"mode": "stream", "notes": notes, "cols": cols}
+    for notes, cols in big_cases(rng, 6 if ctx.quick else 40):
+        rid = len(recs)
+        recs.append(big_record(rid, notes, cols))
         meta[rid] = {"mode": "stream", "notes": notes, "cols": cols}
     verdict = trace.validate(ctx, "Trace_NoteData", nc.DIRS, recs)
     ex = judge(ctx, recs, meta, verdict)
